@@ -278,11 +278,14 @@ def writer_tables(prog):
     if prog.key in _cache:
         return _cache[prog.key]
     out = {}
+    # one partition for both writers: the thresholds of either implementation (a refactoring may spell ">= 128" as "> 127" in one of them)
+    # and the spec's own thresholds, so that every cell is homogeneous for both writers and for the oracle
+    spec_ths = {0, 0x7f, 0xff, 0xffff, 0xffffffff, -1, -32, -33, -128, -129, -32768, -32769, -2147483648, -2147483649, 15, 31}
+    all_consts = set(spec_ths)
     for kind in WRITERS:
-        consts = comparison_constants(prog, kind)
-        # the spec's own thresholds are added so that every cell is also homogeneous for the oracle
-        spec_ths = {0, 0x7f, 0xff, 0xffff, 0xffffffff, -1, -32, -33, -128, -129, -32768, -32769, -2147483648, -2147483649, 15, 31}
-        consts = consts | spec_ths
+        all_consts |= comparison_constants(prog, kind)
+    for kind in WRITERS:
+        consts = set(all_consts)
         tabs = {}
         for t, sg in INT_OVERLOADS:
             f = find_writer_method(prog, kind, 'WriteValue', t)
